@@ -6043,7 +6043,7 @@ void UniCompiler::emit_3v(UniOpVVV op, const Operand_& dst_, const Operand_& src
       case UniOpVVV::kModF32:
       case UniOpVVV::kModF64: {
         FloatMode fm = FloatMode(op_info.float_mode);
-        UniOpVV trunc_op = translate_op(op, UniOpVVV::kModF32S, UniOpVV::kTruncF32);
+        UniOpVV trunc_op = translate_op(op, UniOpVVV::kModF32S, UniOpVV::kTruncF32S);
         const FloatInst& fi = avx_float_inst[fm];
 
         x86::Vec tmp = new_similar_reg(dst, "@mod_tmp");
@@ -6423,7 +6423,7 @@ void UniCompiler::emit_3v(UniOpVVV op, const Operand_& dst_, const Operand_& src
       case UniOpVVV::kModF32:
       case UniOpVVV::kModF64: {
         FloatMode fm = FloatMode(op_info.float_mode);
-        UniOpVV trunc_op = translate_op(op, UniOpVVV::kModF32S, UniOpVV::kTruncF32);
+        UniOpVV trunc_op = translate_op(op, UniOpVVV::kModF32S, UniOpVV::kTruncF32S);
         const FloatInst& fi = sse_float_inst[fm];
 
         x86::Vec tmp = new_similar_reg(dst, "@mod_tmp");
